@@ -75,12 +75,16 @@ structure Entry where
 deriving Inhabited
 
 structure Rec where
+  /-- the name the resolver knows the record under (`resolve(&ref)` answers it for that ref) -/
+  key : Option RefId
+  /-- the record's own `id` tag (`cur_subject.get_ref("id")`); nothing obliges a resolver to hand out records
+  whose `id` is the ref they were asked for -/
   id : Option RefId
   entries : List Entry
 deriving Inhabited
 
 def resolveRec (recs : List Rec) (r : RefId) : Option Rec :=
-  recs.find? (fun rc => rc.id == some r)
+  recs.find? (fun rc => rc.key == some r)
 
 /-- outcome of one pass over the subject's tags -/
 inductive Step where
@@ -131,6 +135,6 @@ def hasRelationship (recs : List Rec) (isRel transitive hasRecip : Bool) (target
   if !isRel then .ok false else relLoop recs transitive hasRecip fuel subject [] target
 
 def viewIds (recs : List RecView) : List RefId := recs.filterMap (·.id)
-def recIds (recs : List Rec) : List RefId := recs.filterMap (·.id)
+def recIds (recs : List Rec) : List RefId := recs.filterMap (·.key)
 
 end Hs.FLoops
